@@ -58,6 +58,8 @@ struct Inner {
     chan_names: HashMap<usize, String>,
     /// capacity each named channel was created with
     chan_caps: HashMap<String, i64>,
+    /// stores (by prefix) whose reducer loop has ended
+    loops_ended: std::collections::HashSet<String>,
     chan_hint: HashMap<ThreadId, String>,
     stores: HashMap<usize, String>, // store id -> prefix ("" for the first store, "B." for the second)
     store_hint: HashMap<ThreadId, String>,
@@ -101,6 +103,7 @@ impl Inner {
             log: Vec::new(),
             chan_names: HashMap::new(),
             chan_caps: HashMap::new(),
+            loops_ended: Default::default(),
             chan_hint: HashMap::new(),
             stores: HashMap::new(),
             store_hint: HashMap::new(),
@@ -183,6 +186,11 @@ impl Sched {
             .get(&std::thread::current().id())
             .cloned()
             .unwrap_or_else(|| "?".to_string())
+    }
+
+    /// has the reducer loop of the store with this prefix logged its end?
+    pub fn loop_ended(&self, prefix: &str) -> bool {
+        self.inner.lock().unwrap().loops_ended.contains(prefix)
     }
 
     /// the capacity the channel of this name was created with
@@ -313,7 +321,10 @@ impl Sched {
             "loop.wait" | "clear.begin" | "ntf.snap" | "stop.join" | "stop.pool" | "stop.drain" | "stop.closed" => {
                 (Class::Gate, kind, json!(0))
             }
-            "loop.end" => (Class::Final, kind, json!(0)),
+            "loop.end" => {
+                g.loops_ended.insert(prefix.clone());
+                (Class::Final, kind, json!(0))
+            }
             "loop.recv" => {
                 let item = match parsed {
                     Some(Value::String(ref s)) if s == "exit" => json!(0),
